@@ -184,6 +184,75 @@ class Sched:
         return out
 
 
+
+class FreeSched:
+    """Same client API as Sched, but nothing is scheduled: real threads, real locks, the interpreter preempts at bytecode
+    granularity (switch interval 1 us).  Not reproducible; complements the baton scheduler, whose finest grain is a statement
+    start.  Must be used in a process where install() was never called."""
+
+    def __init__(self, seed, **kw):
+        self.rng = random.Random(seed)
+        self.threads = {}
+        self.events = []
+        self._lk = _RealLock()
+        self.start_evt = threading.Event()
+        self.switches = 0
+        self.steps = 0
+        self.trace = []
+        self.locs = {}
+        self.stuck = []
+
+    def log(self, *ev):
+        with self._lk:
+            self.events.append((len(self.events),) + ev)
+            return len(self.events) - 1
+
+    def spawn(self, name, fn):
+        st = dict(name=name, exc=None, done=False)
+
+        def run():
+            self.start_evt.wait()
+            try:
+                fn()
+            except BaseException as e:
+                st['exc'] = e
+            finally:
+                st['done'] = True
+        st['thread'] = threading.Thread(target=run, name=name, daemon=True)
+        self.threads[name] = st
+
+    def yield_point(self, tag=''):
+        pass
+
+    def run(self, timeout=60):
+        import time
+        old = sys.getswitchinterval()
+        sys.setswitchinterval(1e-6)
+        try:
+            for st in self.threads.values():
+                st['thread'].start()
+            self.start_evt.set()
+            end = time.monotonic() + timeout
+            for st in self.threads.values():
+                st['thread'].join(max(0.0, end - time.monotonic()))
+        finally:
+            sys.setswitchinterval(old)
+        self.stuck = [n for n, st in self.threads.items() if not st['done']]
+        return not self.stuck
+
+    def digest(self):
+        return hashlib.sha1(repr([e[1:] for e in self.events]).encode()).hexdigest()[:12]
+
+    def failures(self):
+        out = []
+        if self.stuck:
+            out.append(('threads-still-running-at-the-watchdog', self.stuck))
+        for n, st in self.threads.items():
+            if st['exc'] is not None:
+                out.append(('thread-exception', n, type(st['exc']).__name__, repr(st['exc'])[:200]))
+        return out
+
+
 def _ctx():
     s = Sched.cur
     if s is None or not s.active:
@@ -350,7 +419,12 @@ def install(line_modules=(), io_yields=True):
                     f = getattr(o, '__func__', o)
                     if isinstance(f, property):
                         f = f.fget
-                    if isinstance(f, types.FunctionType) and f.__module__ == mod.__name__:
+                    # decorated functions (contextlib.contextmanager, functools.wraps): the body is in __wrapped__; the wrapper's
+                    # own code object belongs to the decorator's module and must not be instrumented
+                    while isinstance(f, types.FunctionType) and hasattr(f, '__wrapped__'):
+                        f = f.__wrapped__
+                    if isinstance(f, types.FunctionType) and f.__module__ == mod.__name__ and \
+                            f.__code__.co_filename == getattr(mod, '__file__', f.__code__.co_filename):
                         mon.set_local_events(TOOL, f.__code__, mon.events.LINE)
                         _line_codes.append(f.__code__)
 
